@@ -7,7 +7,7 @@ CHECKS = {
         "rule": "rapid draws 1-3 pools from a set-of-uint32 model (prefix /1-/32, subnets touching 0.0.0.0 and "
                 "255.255.255.255, 1-4 ranges with gaps>=2, routableSubnet/nodeSubnets with duplicates and host bits), renders "
                 "them to configuration JSON text and (1 case in 3) mutates one pool into an invalid one (outside subnet, "
-                "unsorted, overlapping, adjacent, reversed, bad literal, missing field, wrong JSON type); plus one range string "
+                "unsorted, overlapping, adjacent, reversed, bad literal, a well-formed range followed by one more '~' segment, missing field, wrong JSON type); plus one range string "
                 "a~b per case. A quarter of the valid cases also goes through galaxy-ipam's configmap path on a simulated cluster: the text "
                 "with a null entry in front (decodes, but ConfigurePool refuses it) must answer an error on EVERY poll and leave the configured "
                 "IPs as they were, then the accepted text is applied and enumerates the model's IPs. Non-trivial = >=2 ranges, or a boundary address (x.x.x.0/255, 0.0.0.0, 255.255.255.255), or a "
@@ -101,7 +101,9 @@ CHECKS["C09"] = hist("TestC09", GEN + "Sequences of 2-4 configurations (ranges s
     "(reserve; add event before / after / never relative to the next scheduling, or across a reload; then the reservation is withdrawn "
     "with its delete event before / after the next scheduling, or across a reload), one failing API-server call in a quarter of the "
     "histories (a reload that failed is polled again, as the configmap loop does; objects of de-configured IPs whose deletion failed "
-    "are leftovers by design until the next effective reload), and episodes running one reload "
+    "are leftovers by design until the next effective reload; mutated configurations may re-state the node subnets with a longer prefix, so a "
+    "node's subnet is a different CIDR than before), a probe after every completed reload (a fresh default-policy pod is offered exactly the "
+    "nodes from which a free configured IP is routable), and episodes running one reload "
     "concurrently with schedule/bind/unbind/API release/pod-IP sync/reservation events. Oracle: no allocation or binding of a reserved or "
     "unconfigured IP at any step; after every reload (and every episode containing one) memory == store for every configured IP, no "
     "table entry or FloatingIP object outside the configuration. Non-trivial = a reload dropped >=1 allocated IP and kept >=1, or a "
@@ -164,7 +166,9 @@ CHECKS["C13"] = {"pkg": "galaxysim", "test": "TestC13", "level": "exploration",
     "quick": {"checks": 2000, "shards": 4, "timeout": 900}, "thorough": {"checks": 32000, "shards": 16, "timeout": 2400},
     "rule": "rapid draws a pool (mask /8-/30, gateway anywhere in the subnet, VLAN 0-4094), a statefulset or deployment pod requesting k=0-4 "
             "ranges, and 1-2 networks; a quarter of the pods were created from the manifest of a pod bound earlier, i.e. their args annotation "
-            "already carries common.ipinfos with an address IPAM never gave to them. Real Filter+Bind on the simulated cluster -> the applied binding annotation is put on the pod served "
+            "already carries common.ipinfos with an address IPAM never gave to them; for a quarter of the single-pool statefulset cases the "
+            "administrator changes the pool's gateway and VLAN after the first bind, galaxy-ipam reloads, the pod (policy never) is re-created and bound "
+            "again, and the plugin must get the new settings. Real Filter+Bind on the simulated cluster -> the applied binding annotation is put on the pod served "
             "to the real galaxy daemon -> ADD -> the fake plugin's recorded CNI_ARGS is decoded with the plugins' own cni/ipam.Allocate -> "
             "(address, prefix length, gateway, VLAN) must equal, in order, what the FloatingIP objects and the pool say, for every network. "
             "Non-trivial = k>=2 or VLAN != 0 or mask != /24.",
@@ -200,7 +204,7 @@ CHECKS["C15"] = {"pkg": "netsim", "test": "TestC15", "level": "exploration",
     "quick": {"checks": 6000, "shards": 4, "timeout": 900}, "thorough": {"checks": 48000, "shards": 16, "timeout": 2400},
     "rule": "rapid draws a pair of cluster states A,B (2-4 labelled namespaces, 3-10 labelled pods with IPs, some on this node, 0-5 policies "
             "with pod/namespace/combined selectors, ipBlocks with excepts, ports, all policyTypes combinations; B derived from A by pod "
-            "delete/relabel/re-address/re-creation under the same name on the other side (local <-> remote)/add and policy delete/rewrite/add), optionally the A->B difference as a generated permutation of "
+            "delete/relabel/re-address/loss of the address (re-created, not networked yet)/re-creation under the same name on the other side (local <-> remote)/add and policy delete/rewrite/add), optionally the A->B difference as a generated permutation of "
             "informer events through the real handlers, and prior kernel state (foreign chains/sets, stale GLX sets, stale GLX policy "
             "chains, a stale pod chain still referencing a stale policy chain). Oracle on the strict fakes: no rejected batch, non-GLX "
             "chains/rules/sets unchanged after every call, full sync of B == full sync of B on empty tables (canonical form), second full "
